@@ -1,6 +1,7 @@
 package ct
 
 import (
+	"bytes"
 	"crypto"
 	"crypto/ecdsa"
 	"crypto/elliptic"
@@ -119,6 +120,11 @@ func (s SignatureVerifier) verifySignature(data []byte, sig DigitallySigned) err
 		}
 		if len(rest) != 0 {
 			log.Printf("Garbage following signature %v", rest)
+		}
+		// asn1.Unmarshal ignores whatever follows s INSIDE the SEQUENCE: the
+		// decoded (r,s) must encode back to exactly the element that was read.
+		if enc, err := asn1.Marshal(ecdsaSig); err != nil || !bytes.Equal(enc, sig.Signature[:len(sig.Signature)-len(rest)]) {
+			return errors.New("failed to unmarshal ECDSA signature: not the DER encoding of SEQUENCE{r,s}")
 		}
 
 		if !ecdsa.Verify(ecdsaKey, hash, ecdsaSig.R, ecdsaSig.S) {
